@@ -167,6 +167,18 @@ func (s *srcFile) literal(fn *ast.FuncDecl, typ string) map[string]string {
 	return out
 }
 
+// caseHead: text of the first statement of the switch clause of fn whose (single) label is exactly label
+func (s *srcFile) caseHead(fn *ast.FuncDecl, label string) string {
+	out := "?"
+	ast.Inspect(fn.Body, func(x ast.Node) bool {
+		if c, ok := x.(*ast.CaseClause); ok && len(c.List) == 1 && s.text(c.List[0]) == label && len(c.Body) > 0 && out == "?" {
+			out = s.text(c.Body[0])
+		}
+		return true
+	})
+	return out
+}
+
 type fact struct {
 	lean string // Lean identifier
 	what string // human description (goes into the doc comment)
@@ -183,6 +195,10 @@ func genFacts() ([]fact, error) {
 		return nil, err
 	}
 	voter, err := parseSrc("consensus/ucon/voter.go")
+	if err != nil {
+		return nil, err
+	}
+	sver, err := parseSrc("consensus/ucon/sortition_verifier.go")
 	if err != nil {
 		return nil, err
 	}
@@ -205,6 +221,15 @@ func genFacts() ([]fact, error) {
 	agg1, e8 := blsf.fn("VerifyAggregatedOne")
 	_, e9 = blsk.fn("Verify")
 	for _, e := range []error{e1, e2, e4, e5, e6, e7, e8, e9} {
+		if e != nil {
+			return nil, e
+		}
+	}
+	vcf, e10 := cons.fn("verifyConsensusField")
+	glv, e11 := cons.fn("getLookBackValReader")
+	glh, e12 := cons.fn("getLookBackHeader")
+	glb, e13 := sver.fn("GetLookBackBlockNumber")
+	for _, e := range []error{e10, e11, e12, e13} {
 		if e != nil {
 			return nil, e
 		}
@@ -265,6 +290,28 @@ func genFacts() ([]fact, error) {
 			cons.ifs(main, "header.Number.Uint64() > 0 && header.Number.Uint64()%params.ACoCHTFrequency == 0", "") == 1)
 	add("srcSideEntry", "VerifySideChainHeader ends with `return s.verifyConsensusFieldMain(cp, seedHeader, vldReader, certHeader, certVldReader, block.Header())`",
 		cons.stmts(side, "return s.verifyConsensusFieldMain(cp, seedHeader, vldReader, certHeader, certVldReader, block.Header())") == 1)
+
+	// ---- look-back resolution ---------------------------------------------------------------------------------
+	add("srcLookBackCalls", "verifyConsensusField: seed header = getLookBackHeader(cp, …, params.LookBackSeed, parents), validators = getLookBackValReader(cp, …, params.LookBackStake, parents); certificate rounds: (nil, …, params.LookBackCertSeed) and (nil, …, params.LookBackCertStake); handed to verifyConsensusFieldMain(cp, seedHeader, vldReader, certSeedHeader, certVldReader, header); getLookBackValReader reads chain.GetVldReader(lbHeader.ValRoot) of getLookBackHeader(cp, chain, currNum, lbtype, parents)",
+		sameArgs(cons.calls(vcf, "s.getLookBackHeader"), []string{"cp", "chain", "header.Number", "params.LookBackSeed", "parents"}, []string{"nil", "chain", "header.Number", "params.LookBackCertSeed", "parents"}) &&
+			sameArgs(cons.calls(vcf, "s.getLookBackValReader"), []string{"cp", "chain", "header.Number", "params.LookBackStake", "parents"}, []string{"nil", "chain", "header.Number", "params.LookBackCertStake", "parents"}) &&
+			cons.stmts(vcf, "seedHeader, err := s.getLookBackHeader(cp, chain, header.Number, params.LookBackSeed, parents)") == 1 &&
+			cons.stmts(vcf, "vldReader, err := s.getLookBackValReader(cp, chain, header.Number, params.LookBackStake, parents)") == 1 &&
+			cons.stmts(vcf, "certSeedHeader, err = s.getLookBackHeader(nil, chain, header.Number, params.LookBackCertSeed, parents)") == 1 &&
+			cons.stmts(vcf, "certVldReader, err = s.getLookBackValReader(nil, chain, header.Number, params.LookBackCertStake, parents)") == 1 &&
+			cons.stmts(vcf, "return s.verifyConsensusFieldMain(cp, seedHeader, vldReader, certSeedHeader, certVldReader, header)") == 1 &&
+			cons.stmts(glv, "lbHeader, err := s.getLookBackHeader(cp, chain, currNum, lbtype, parents)") == 1 &&
+			cons.stmts(glv, "reader, err = chain.GetVldReader(lbHeader.ValRoot)") == 1 &&
+			cons.stmts(glh, "lookBack := s.GetLookBackBlockNumber(cp, currNum, lbtype)") == 1 &&
+			cons.stmts(glh, "lookBackHeader = chain.GetHeaderByNumber(lookBack.Uint64())") == 1)
+	add("srcLookBackNumbers", "GetLookBackBlockNumber: LookBackPos/LookBackSeed -> cp.SeedLookBack, LookBackStake -> cp.StakeLookBack, LookBackCert/LookBackCertSeed -> ACoCHTFrequency, LookBackCertStake -> 2*ACoCHTFrequency; `if num.Cmp(cfg) > 0 { lookBack.Sub(lookBack, cfg) } else { 0 }`",
+		sver.caseHead(glb, "params.LookBackPos") == "fallthrough" &&
+			sver.caseHead(glb, "params.LookBackSeed") == "cfg = big.NewInt(int64(cp.SeedLookBack))" &&
+			sver.caseHead(glb, "params.LookBackStake") == "cfg = big.NewInt(int64(cp.StakeLookBack))" &&
+			sver.caseHead(glb, "params.LookBackCert") == "fallthrough" &&
+			sver.caseHead(glb, "params.LookBackCertSeed") == "cfg = big.NewInt(int64(params.ACoCHTFrequency))" &&
+			sver.caseHead(glb, "params.LookBackCertStake") == "cfg = big.NewInt(int64(params.ACoCHTFrequency) * 2)" &&
+			sver.ifs(glb, "num.Cmp(cfg) > 0", "") == 1 && sver.stmts(glb, "lookBack = lookBack.Sub(lookBack, cfg)") == 1 && sver.stmts(glb, "lookBack.SetInt64(0)") == 1)
 
 	// ---- sortition.go, voter.go -------------------------------------------------------------------------------
 	add("srcSeatCheck", "VrfVerifySortition: `if j <= 0 { return false, … }` and `if uint32(j) != subUsers { return false, … }`, j := choose(hash, stake, pFloat), hash from pk.ProofToHash(MakeM(seed, role, index), proof)",
